@@ -340,6 +340,9 @@ class ColsV:
 
 def lib_np_array(ev, a, k, n, mod):
     v = a[0]
+    dt = k.get("dtype")
+    if dt is not None and not any(t in repr(dt).lower() for t in ("float", "double")):
+        raise AnalysisError("numpy.array with a non-floating dtype in a table model")
     if isinstance(v, SeqV) and isinstance(v.elem, Tup):
         return ColsV(v.elem.items)
     if isinstance(v, Tup) and len(v.items) == 1 and isinstance(v.items[0], Tup) and getattr(v, "elementwise", False):
